@@ -39,7 +39,7 @@ class Case:
             elif o[0] == "failat":
                 out.append("failat %d" % o[1])
             else:
-                out.append(o[0])
+                out.append(" ".join([o[0]] + [str(x) for x in o[1:]]))
         out.append("END")
         return "\n".join(out) + "\n"
 
